@@ -80,3 +80,13 @@ Example C08_token_shapes_inhabited :
   (shaped d14_tree = true /\ k29_list d14_tree = false /\ so_complete (expected with_prefix d14_tree) = true) /\
   (shaped d25_tree = true /\ k29_list d25_tree = false /\ so_complete (expected d25_opts d25_tree) = true).
 Proof. vm_compute. repeat split; reflexivity. Qed.
+
+(* ... and the same for the LOW-PRIORITY output (the converted `:host` rules inside their replayed at-rule chains): with the
+   theorem above, both outputs of the transformer are characterised token shape by token shape *)
+From GE Require Proofs.CssSheetLowShape.
+Theorem C08_low_token_shapes_exact_sheet : forall o tree endp,
+  shaped tree = true -> k29_list tree = false ->
+  so_complete (expected o tree) = true ->
+  shp (o_tokens (w_low (transform o tree endp))) = shp (map e_tok (so_low (expected o tree))).
+Proof. exact CssSheetLowShape.low_shape_sheet. Qed.
+Print Assumptions C08_low_token_shapes_exact_sheet.
